@@ -284,16 +284,66 @@ def copyto(dst, src, where=True):
     dst[...] = src
 
 
+class _Add:
+    def __call__(self, a, b):
+        return add(a, b)
+
+    def reduce(self, a, axis=0):
+        return nd.sum_(a, axis)
+
+    def accumulate(self, a, axis=0):
+        return nd.cumsum(a)
+
+
+def ediff1d(a):
+    return nd.diff(ravel(a))
+
+
+def select(condlist, choicelist, default=0):
+    r = default
+    for c, v in reversed(list(zip(condlist, choicelist))):
+        r = nd.where(c, v, r)
+    return r
+
+
+def put(a, ind, v):
+    idx = _ints(ind)
+    vals = nd._flat(v) if isinstance(v, (ndarray, list, tuple, _np.ndarray)) else [v]
+    flat = a.reshape(-1) if a.d.ndim > 1 else a
+    for k, i in enumerate([idx] if isinstance(idx, int) else idx):
+        flat[i] = vals[k % len(vals)]
+
+
+class _RClass:
+    def __getitem__(self, key):
+        parts = key if isinstance(key, tuple) else (key,)
+        if any(isinstance(p, (slice, str)) for p in parts):
+            raise NotEncodable('np.r_ with a slice or a directive')
+        return nd.concatenate([atleast_1d(p) for p in parts])
+
+
+class _CClass:
+    def __getitem__(self, key):
+        parts = key if isinstance(key, tuple) else (key,)
+        if any(isinstance(p, (slice, str)) for p in parts):
+            raise NotEncodable('np.c_ with a slice or a directive')
+        return nd.column_stack(list(parts))
+
+
+def ix_(*a):
+    raise NotEncodable('np.ix_')
+
+
 def install(m):
     for k, v in dict(flatnonzero=flatnonzero, take=take, ravel=ravel, reshape=reshape, transpose=transpose, squeeze=squeeze, atleast_1d=atleast_1d,
                      atleast_2d=atleast_2d, expand_dims=expand_dims, insert=insert, roll=roll, tile=tile, repeat=repeat, fromiter=fromiter, var=var,
                      around=around, round=around, round_=around, logical_and=logical_and, logical_or=logical_or, logical_xor=logical_xor,
                      logical_not=logical_not, less=less, less_equal=less_equal, greater=greater, greater_equal=greater_equal, equal=equal,
-                     not_equal=not_equal, add=add, subtract=subtract, multiply=multiply, negative=negative, reciprocal=reciprocal, true_divide=nd.divide,
+                     not_equal=not_equal, subtract=subtract, multiply=multiply, negative=negative, reciprocal=reciprocal, true_divide=nd.divide,
                      isin=isin, in1d=isin, setdiff1d=setdiff1d, union1d=union1d, intersect1d=intersect1d, outer=outer, inner=inner, matmul=matmul,
                      vdot=nd.dot, einsum=einsum, trapz=trapz, trapezoid=trapz, cumprod=cumprod, trunc=trunc, nanmax=nd.amax, nanmin=nd.amin,
                      nansum=nd.sum_, nanmean=nd.mean, nanargmax=nd.argmax, nanargmin=nd.argmin, asanyarray=nd.asarray, ascontiguousarray=nd.asarray,
-                     asfarray=nd.asarray, putmask=putmask, copyto=copyto).items():
+                     asfarray=nd.asarray, putmask=putmask, copyto=copyto, ediff1d=ediff1d, select=select, put=put, ix_=ix_, add=_Add(), r_=_RClass(), c_=_CClass()).items():
         if not hasattr(m, k) or k in ('round',):
             setattr(m, k, v)
     m.float64 = m.float_ = m.double = m.float32 = nd.b_float
@@ -317,6 +367,7 @@ def _methods():
     A.squeeze = lambda self, axis=None: squeeze(self, axis)
     A.transpose = lambda self: transpose(self)
     A.round = lambda self, decimals=0: around(self, decimals)
+    A.put = lambda self, ind, v: put(self, ind, v)
     A.take = lambda self, idx, axis=None: take(self, idx, axis)
     A.ptp = lambda self: nd.ptp(self)
     A.repeat = lambda self, r, axis=None: repeat(self, r, axis)
